@@ -7,10 +7,10 @@ from ..settings import Sign
 class ExportConfigFortran(ExportConfig):
 
     def _parse_strlen(self, param, value):
-        # length of the longest element literal
+        # length of the longest element literal; default character kind counts bytes, not characters
         if isinstance(value,(np.ndarray,tuple,list)):
             return max(self._parse_strlen(param, v) for v in value)
-        return len(self._parse_scalar(param, value))
+        return len(self._parse_scalar(param, value).encode('utf-8'))
 
     def _parse_dtype(self, param, value):
         if isinstance(param, StringType):
